@@ -1,7 +1,10 @@
 """Fresh-interpreter side of the C16 check:  python c16_worker.py <repo> <mode>   (job as JSON on stdin)
 
 mode parse: {"parser", "path", "kwargs"}      -> per-key digests of one parse in an interpreter that did nothing else
-mode reg:   {"package", "names": [...]}        -> plugins.get of the names in order: found flags + registered keys
+mode reg:   {"package", "names": [...]}        -> questions in order (`g:name` get, `l:name` load, `e:name` exists; a bare
+                                                   name is a get): found flags + registered keys
+mode plughist: {"questions": {package: [names]}} -> list + resolve every name of the three plug-in packages, ask
+                                                   exists()/get()/load() about names that are not plug-ins, list + resolve again
 """
 import json
 import sys
@@ -25,11 +28,81 @@ elif mode == "reg":
 
     found = []
     with contextlib.redirect_stdout(io.StringIO()):
-        for n in job["names"]:
+        for q in job["names"]:
+            kind, n = (q[0], q[2:]) if q[:2] in ("g:", "l:", "e:") else ("g", q)
             try:
-                plugins.get(job["package"], n)
-                found.append(True)
+                if kind == "e":
+                    found.append(bool(plugins.exists(job["package"], n)))
+                elif kind == "l":
+                    plugins.load(job["package"], n)
+                    found.append(True)
+                else:
+                    plugins.get(job["package"], n)
+                    found.append(True)
             except Exception:
                 found.append(False)
     keys = sorted(k for k in plugins._PLUGINS.get(job["package"], {}).keys())
     sys.stdout.write("\n@@RESULT@@" + json.dumps({"found": found, "keys": keys}) + "\n")
+elif mode == "plughist":
+    import contextlib
+    import inspect
+    import io
+    import warnings
+
+    warnings.simplefilter("ignore")
+    import numpy as np
+
+    from midgard import parsers, writers
+    from midgard.data import fieldtypes
+    from midgard.data.fieldtypes._fieldtype import FieldType
+    from midgard.dev import plugins
+
+    LISTERS = {"midgard.parsers": parsers.names, "midgard.writers": writers.names, "midgard.data.fieldtypes": fieldtypes.names}
+
+    def survey():
+        listing, unresolved = {}, []
+        for pkg, lister in LISTERS.items():
+            try:
+                listing[pkg] = list(lister())
+            except Exception as e:
+                listing[pkg] = []
+                unresolved.append([pkg, "names()", f"{type(e).__name__}: {e}"])
+            for n in listing[pkg]:
+                try:
+                    fn = plugins.get(pkg, n).function
+                    if pkg == "midgard.parsers":
+                        ok = (inspect.isclass(fn) and issubclass(fn, parsers.Parser)) or inspect.isfunction(fn)
+                    elif pkg == "midgard.writers":
+                        ok = inspect.isfunction(fn)
+                    else:
+                        ok = inspect.isclass(fn) and issubclass(fn, FieldType) and fieldtypes.function(n) is fn
+                    if not ok:
+                        unresolved.append([pkg, n, f"resolves to {fn!r}"])
+                except Exception as e:
+                    unresolved.append([pkg, n, f"{type(e).__name__}: {e}"])
+        try:  # what Dataset does for an untyped field: walks the listed field types
+            fieldtypes.fieldtype(np.array([1.0, 2.0]))
+        except Exception as e:
+            unresolved.append(["midgard.data.fieldtypes", "fieldtype(array)", f"{type(e).__name__}: {e}"])
+        return listing, unresolved
+
+    with contextlib.redirect_stdout(io.StringIO()):
+        l0, u0 = survey() if job.get("survey_first", True) else ({}, [])
+        answers = []
+        for pkg, qs in job["questions"].items():
+            for q in qs:
+                kind, n = q[0], q[2:]
+                try:
+                    if kind == "e":
+                        answers.append([pkg, q, bool(plugins.exists(pkg, n))])
+                    elif kind == "l":
+                        plugins.load(pkg, n)
+                        answers.append([pkg, q, True])
+                    else:
+                        plugins.get(pkg, n)
+                        answers.append([pkg, q, True])
+                except Exception as e:
+                    answers.append([pkg, q, False])
+        l1, u1 = survey()
+    sys.stdout.write("\n@@RESULT@@" + json.dumps({"before": l0, "unresolved_before": u0, "answers": answers,
+                                                  "after": l1, "unresolved_after": u1}) + "\n")
